@@ -207,10 +207,11 @@ class SlowWriter(MemWriter):
     """A gateway that takes its time to read: after a large write() the stream is above its high-water mark and drain() suspends."""
 
     drain_delay = 0.0
+    slow_min = 4096
     _big = False
 
     def write(self, data: bytes) -> None:
-        self._big = self._big or len(data) >= 4096
+        self._big = self._big or len(data) >= self.slow_min
         super().write(data)
 
     async def drain(self) -> None:
